@@ -1,10 +1,15 @@
 (* C15 — shell.Quote/Join protect every string; Split inverts Join.
-   Only statements, each closed by [exact] of a lemma proved elsewhere
-   (Shell/ShellProofs.v over the generated transducer table; Shell/ShellProofsPosix.v over the
-   generated quoting sets mustQuote/shouldQuote/spaces/allQuote of Gen/ShellTable.v). *)
+   Only statements, each closed by [exact] of a lemma proved elsewhere.  The functions are those of
+   Shell/ShellModel.v, assembled from the table, character sets AND control skeleton (the guards
+   that open Quote and quote in source order, quotable's if-chain, the body of quote's loop, Join's
+   separator, the actions of Next's switch, Split resetting its pooled scanner) that the translator
+   regenerates from shell/shell.go into Gen/ShellTable.v.  Shell/ShellSkel.v proves that model equal
+   to a readable statement-by-statement transcription, over which Shell/ShellProofs.v (round trips,
+   generated transducer table) and Shell/ShellProofsPosix.v (POSIX clause, generated quoting sets)
+   are carried out; Shell/ShellFinal.v transports the results. *)
 From Coq Require Import NArith List.
 Import ListNotations.
-From Mds Require Import Shell.ShellModel Shell.ShellSpec Shell.ShellProofs Shell.ShellProofsPosix.
+From Mds Require Import Gen.ShellTable Shell.ShellModel Shell.ShellSpec Shell.ShellFinal.
 Local Open Scope N_scope.
 
 (* Split(Join(ss)) = (ss, true) for every list of byte strings; no panic (Some). *)
@@ -19,6 +24,18 @@ Example C15_split_join_ex :
   /\ split (join [[]; [105; 116; 39; 115]; [97; 32; 98; 59; 99]])
      = Some ([[]; [105; 116; 39; 115]; [97; 32; 98; 59; 99]], true).
 Proof. vm_compute. auto. Qed.
+
+(* ... and whatever state the scanner that Split takes from its pool was left in by earlier
+   calls (any token, any tokenizer state, error latched or not, input left unread): Split resets
+   it completely.  [split] above is [split_from] on the pool's fresh scanner. *)
+Theorem C15_split_join_pooled : forall (sc : scanner) (ss : list (list N)), split_from sc (join ss) = Some (ss, true).
+Proof. exact split_join_pooled. Qed.
+Print Assumptions C15_split_join_pooled.
+
+Example C15_split_join_pooled_ex :   (* a scanner abandoned inside a double-quoted token, unread input left, error latched *)
+  split_from {| inp := [120; 34; 121]; st := stDoubleQ; cur := [122; 122]; eof := true |} (join [[97; 32; 98]; []])
+  = Some ([[97; 32; 98]; []], true).
+Proof. vm_compute. reflexivity. Qed.
 
 (* Split(Quote(s)) = ([s], true) for every byte string. *)
 Theorem C15_split_quote : forall s : list N, split (quote s) = Some ([s], true).
@@ -47,6 +64,21 @@ Example C15_posix_ex :
   /\ posix_words [126; 120] = None              (* ~x unquoted: rejected *)
   /\ posix_words [34; 36; 120; 34] = None.      (* $ inside double quotes: rejected *)
 Proof. vm_compute. auto. Qed.
+
+(* Where the line is drawn.  [posix_special] is the list of XCU 2.2 (IEEE Std 1003.1-2008/2013/2018, the
+   edition the package documentation cites): | & ; < > ( ) $ ` backslash dq sq space tab newline, and
+   "under certain circumstances" * ? [ # ~ = %.  Not in it, and left bare by Quote: ! { } ^ , ] - and
+   every non-ASCII byte.  In a POSIX shell these are special only as a whole unquoted word in command
+   position (the reserved words ! { } -- like if or while, which Quote leaves bare too) or inside a
+   bracket expression, which needs an unquoted [ first (^ ! - ]); history expansion (!) and brace
+   expansion ({ , }) are extensions of interactive bash/csh, not POSIX (POSIX.1-2024 added
+   ] ^ - ! { , } to the "certain circumstances" list for exactly these contexts).  So Quote(s) is a
+   safe *argument* word; it is not claimed safe as a command name. *)
+Example C15_posix_boundary :
+  quote [33] = [33] /\ quote [123] = [123] /\ quote [125] = [125] /\ quote [94] = [94] /\ quote [44; 93; 45] = [44; 93; 45]
+  /\ posix_words [33; 32; 123; 125; 32; 94] = Some [[33]; [123; 125]; [94]]
+  /\ quote [91; 33; 97; 93] = [39; 91; 33; 97; 93; 39].      (* the bracket that would make them special is quoted *)
+Proof. vm_compute. auto 10. Qed.
 
 (* The Join analogue, for every list of byte strings (the empty list gives the empty text, an
    empty string is written as two single quotes): a POSIX shell reads Join(ss) as exactly the
